@@ -423,7 +423,7 @@ theorem sign_panics_iff (v : Signer.Variant) (t : Tables) (s : Signer.SignerVal)
         (s.alg = Signer.algEC ∨ s.alg = Signer.algECDSA) ∧ ∀ n, s.key ≠ .ecdsa n) :=
   Signer.sign_panic_iff v t s o script
 
-/-- With checked assertions (the proposed repair) the helper never panics, for EVERY script — responses
+/-- With checked assertions (the code since /repo 83126bc: `signer_current_code`) the helper never panics, for EVERY script — responses
     fabricated in-process, with attribute values of foreign Go types, included. -/
 theorem signer_checked_never_panics (t : Tables) (priv pub : Bool) (o : Signer.SignOpts) (script : List Signer.Answer) :
     Signer.signerThenSign Signer.checked t priv pub o script ≠ .signerPanic ∧
